@@ -47,7 +47,28 @@ SPECS = [
     ("internal/arch/common/unicode_common.h", r"code_point >= 0x([0-9a-fA-F]+) && code_point < 0x([0-9a-fA-F]+)\) \{\s*if \(\(\(\*src_ptr\)\[0\]", ["surHiLo:hex", "surHiEnd:hex"]),
     ("allocator.h", r"\(\(\(x\) \+ static_cast<size_t>\((\d+)u\)\) & ~static_cast<size_t>\(\1u\)\)", ["poolAlignMask"]),
     ("allocator.h", r"#define SONIC_ALLOCATOR_DEFAULT_CHUNK_CAPACITY \((\d+) \* (\d+)\)", ["poolDefaultChunkA", "poolDefaultChunkB"]),
+    # SIMD literal constants of the scanners: the 16-entry nibble tables of GetNonSpaceBits (both ISAs) and the bytes StringBlock::Find compares with
+    ("internal/arch/avx2/unicode.h", r"const auto whitespace_table =\s*simd256<uint8_t>::repeat_16\(([^)]*)\);", ["wsTabAvx2:list"]),
+    ("internal/arch/sse/unicode.h", r"\n  __m128i whitespace_table =\s*_mm_setr_epi8\(([^)]*)\);", ["wsTabSse:list"]),
+    ("internal/arch/avx2/unicode.h", r"\(v == '(\\\\|.)'\)\.to_bitmask\(\)\),\s*static_cast<uint32_t>\(\(v == '(\\\\|.)'\)\.to_bitmask\(\)\),\s*static_cast<uint32_t>\(\(v <= '\\x([0-9a-fA-F]+)'\)\.to_bitmask\(\)\)",
+     ["sbBackslashAvx2:chr", "sbQuoteAvx2:chr", "sbCtrlMaxAvx2:hex"]),
+    ("internal/arch/sse/unicode.h", r"_mm_cmpeq_epi8\(v, _mm_set1_epi8\('(\\\\|.)'\)\)\)\),\s*static_cast<uint32_t>\(\s*_mm_movemask_epi8\(_mm_cmpeq_epi8\(v, _mm_set1_epi8\('(\\\\|.)'\)\)\)\),\s*static_cast<uint32_t>\(_mm_movemask_epi8\(\s*_mm_and_si128\(_mm_cmplt_epi8\(v, _mm_set1_epi8\('\\x([0-9a-fA-F]+)'\)\),\s*_mm_cmpgt_epi8\(v, _mm_set1_epi8\((-?\d+)\)\)",
+     ["sbBackslashSse:chr", "sbQuoteSse:chr", "sbCtrlLtSse:hex", "sbCtrlGtSse:int8"]),
 ]
+
+
+def _item(tok):
+    """value of one C initialiser item: integer literal or character literal"""
+    tok = tok.strip()
+    if tok.startswith("'"):
+        body = tok[1:-1]
+        esc = {"\\t": 9, "\\n": 10, "\\r": 13, "\\\\": 92, "\\'": 39, "\\0": 0}
+        if body in esc:
+            return esc[body]
+        if body.startswith("\\x"):
+            return int(body[2:], 16)
+        return ord(body)
+    return int(tok, 0) & 0xFF
 
 
 def main():
@@ -68,6 +89,19 @@ def main():
             missing.append(f"{rel}: pattern for {', '.join(names)} not found")
             continue
         for n, g in zip(names, m.groups()):
+            if n.endswith(":list"):
+                n = n[:-5]
+                vals = [_item(x) for x in g.split(",") if x.strip()]
+                lines.append(f"def {n} : List Nat := {vals}")
+                continue
+            if n.endswith(":chr"):
+                n, v = n[:-4], (92 if g == "\\\\" else ord(g))
+                lines.append(f"def {n} : Nat := {v}")
+                continue
+            if n.endswith(":int8"):
+                n, v = n[:-5], int(g) & 0xFF
+                lines.append(f"def {n} : Nat := {v}")
+                continue
             if n.endswith(":hex"):
                 n, v = n[:-4], int(g, 16)
             elif g.isdigit():
